@@ -633,7 +633,15 @@ Definition tab_apply (items : list item) (t : table) (o : tabop) : outcome :=
       end
     end
   | TEnsureLoop =>
-    let '(items1, _, st) := tab_ensure_loop items t in mkOut items1 st []
+    (* the handle (positions, loop item) after ensure_loop() is observable: it is dumped like TLook *)
+    let '(items1, t1, st) := tab_ensure_loop items t in
+    match st with
+    | SOk => match tab_look items1 t1 with
+             | Some out => mkOut items1 SOk out
+             | None => ub items1
+             end
+    | _ => mkOut items1 st []
+    end
   | TErase =>
     match t_loop t with
     | Some i => ok_ (set_nth i Erased items)
